@@ -111,7 +111,10 @@ class Cluster:
             # Manage each cluster
             for c in self.cl:
                 if not self._clusters[c]['ingest']['status']:
-                    self._clusters[c]['usage_data']['ingest'] = 0
+                    # Another observation may still be ingesting: report the
+                    # machines that are actually in the ingest pool
+                    self._clusters[c]['usage_data']['ingest'] = len(
+                        self._clusters[c]['resources']['ingest'])
                     self._clusters[c]['ingest']['demand'] = 0
             yield self.env.timeout(TIMESTEP)
 
